@@ -82,6 +82,8 @@ func (e *Env) Enabled(op Op) bool {
 		return inTx && len(e.Visible()) > 0
 	case OFreeEveryOther, OFreeAll:
 		return inTx && len(e.Visible()) > 0
+	case OFreeRun:
+		return inTx && op.A >= 0 && op.A+op.B <= len(e.Visible())
 	}
 	return false
 }
@@ -416,6 +418,15 @@ func (e *Env) Apply(op Op) {
 			if op.K == OFreeEveryOther && i%2 != op.A%2 {
 				continue
 			}
+			if _, dirty := e.T.Writes[id]; dirty || e.Dead {
+				continue
+			}
+			e.doFree(id)
+		}
+
+	case OFreeRun:
+		vis := e.Visible()
+		for _, id := range vis[op.A : op.A+op.B] {
 			if _, dirty := e.T.Writes[id]; dirty || e.Dead {
 				continue
 			}
